@@ -21,10 +21,10 @@ A = lambda v, e: ("assign", v, e)
 INC = lambda v, k=1: ("assign", v, ("bin", "+", ("var", v), ("num", k)))
 LIT = lambda s: ("match", ("lit", s))
 
-def _prog(body, ints=(), strs=(), hooks=()):
+def _prog(body, ints=(), strs=(), hooks=(), ycodes=()):
     return {"outs": [{"type": "int", "name": n, "signed": None, "width": None, "default": None} for n in ints] +
                     [{"type": "str", "name": n, "size": sz, "null": nl, "default": None} for n, sz, nl in strs],
-            "hooks": list(hooks), "finish_codes": [], "yield_codes": [], "body": body}
+            "hooks": list(hooks), "finish_codes": [], "yield_codes": list(ycodes), "body": body}
 
 # Known findings (genuine deviations of the unchanged compiler from the procedural reading), each pinned to one witness
 # program; the generator avoids these shapes (see gen.Profile switches below) so that every OTHER deviation is reported.
@@ -45,6 +45,10 @@ WITNESSES = [
     ("reading:wait-restart-leaves-optional",
      _prog([("optional", [("wait", ("lit", b"9h")), LIT(b"bb")]), ("wait", ("re", ("c", 98))), LIT(b"\n")]), "9x9hbbb\n",
      "a wait at the head of an optional body that restarts falls back to the optional's own decision: on 9x9hbbb\\n the reading is DONE, the parser leaves the optional at x and returns FAIL"),
+    ("reading:yield-in-trailing-if",
+     _prog([("loop", None, [LIT(b"a"), ("if", [(("bin", "==", ("var", "n0"), ("num", 1)), [("yield", "Y0")])], None)])], ints=["n0"], ycodes=["Y0"]), "aa",
+     "an if whose body holds a yield and which is the last statement of a loop body (or of the program) is never dispatched: the state behind the statement in front of it keeps the branches as transitions without symbols and takes its error transition (loop { \"a\"; if n0 == 1 { yield Y0; } } fed aa: the reading consumes both bytes and returns OK - or yields Y0 behind each when n0 is 1 - the parser returns FAIL at the second a, at every optimisation level)",
+     ["-fyield-support"]),
 ]
 
 
@@ -243,9 +247,10 @@ def run(ctx):
 
     # ---- known findings: one witness each
     known = 0
-    for key, p, inp, what in WITNESSES:
+    for key, p, inp, what, *wfl in WITNESSES:
+        wfl = wfl[0] if wfl else []
         src = gen.pr_prog(p)
-        c = convert(p, src, [], "-O0")
+        c = convert(p, src, wfl, "-O0")
         if c["verdict"] != "ok":
             ctx.log("witness %s: compiler says %s (%s)" % (key, c["verdict"], c.get("message", "")[:80]))
             continue
@@ -255,8 +260,8 @@ def run(ctx):
             continue
         known += 1
         inp_b = list(inp.encode("latin-1"))
-        ctx.violation(key + ":witness", what, {"program": src, "flags": ["-O0"], "input": inp_b, "certificate": res[:400],
-                                                "binary": run_binary(src, ["-O0"], inp_b, os.path.join(common.BUILD, "c01", "w"))}, found_input=True)
+        ctx.violation(key + ":witness", what, {"program": src, "flags": ["-O0"] + wfl, "input": inp_b, "certificate": res[:400],
+                                                "binary": run_binary(src, ["-O0"] + wfl, inp_b, os.path.join(common.BUILD, "c01", "w"))}, found_input=True)
 
     # ---- generated programs
     nprog = 170 if quick else 1200
